@@ -13,6 +13,11 @@ type DynamicFanOut[T any] struct {
 	closed  bool
 	mutex   sync.Mutex
 	outputs map[int64]chan T
+
+	// gone[id] is closed by DespawnOutput before it waits for mutex, so run() never stays blocked
+	// (while holding mutex) on the output of a consumer that has stopped reading
+	goneMutex sync.Mutex
+	gone      map[int64]chan struct{}
 }
 
 func NewDynamicFanOut[T any](input <-chan T) *DynamicFanOut[T] {
@@ -21,6 +26,7 @@ func NewDynamicFanOut[T any](input <-chan T) *DynamicFanOut[T] {
 		inputCap: cap(input),
 		outputs:  make(map[int64]chan T),
 		mutex:    sync.Mutex{},
+		gone:     make(map[int64]chan struct{}),
 	}
 	go f.run()
 	return &f
@@ -29,12 +35,27 @@ func NewDynamicFanOut[T any](input <-chan T) *DynamicFanOut[T] {
 func (f *DynamicFanOut[T]) run() {
 	for e := range f.input {
 		f.mutex.Lock()
-		for _, o := range f.outputs {
-			o <- e
+		for id, o := range f.outputs {
+			select {
+			case o <- e:
+			case <-f.goneChan(id): // output is being removed
+			}
 		}
 		f.mutex.Unlock()
 	}
 	f.closed = true
+}
+
+var closedChan = func() chan struct{} { c := make(chan struct{}); close(c); return c }()
+
+// goneChan returns the channel that gets closed when removal of the given output was requested
+func (f *DynamicFanOut[T]) goneChan(id int64) <-chan struct{} {
+	f.goneMutex.Lock()
+	defer f.goneMutex.Unlock()
+	if g, ok := f.gone[id]; ok {
+		return g
+	}
+	return closedChan
 }
 
 // SpawnOutput creates new output channel and its ID for later despawning.
@@ -65,12 +86,22 @@ func (f *DynamicFanOut[T]) SpawnOutput() (int64, <-chan T, error) {
 	}
 
 	f.outputs[id] = newChan
+	f.goneMutex.Lock()
+	f.gone[id] = make(chan struct{})
+	f.goneMutex.Unlock()
 	f.mutex.Unlock()
 	return id, newChan, nil
 }
 
 // DespawnOutput removes output channel with given ID
 func (f *DynamicFanOut[T]) DespawnOutput(id int64) error {
+	f.goneMutex.Lock()
+	if g, ok := f.gone[id]; ok {
+		close(g)
+		delete(f.gone, id)
+	}
+	f.goneMutex.Unlock()
+
 	f.mutex.Lock()
 	defer f.mutex.Unlock()
 
